@@ -727,6 +727,13 @@ func (field *fieldDataPrecisionScale) ReadFrom(ch BytesChannel) (int, error) {
 		return n, fmt.Errorf("%T is neither of type DecNFieldFmt nor NumNFieldFmt", field.value)
 	}
 
+	// The precision and scale are announced by the server - a decimal
+	// with an impossible combination cannot be formatted.
+	if _, err := asetypes.NewDecimal(dec.Precision, dec.Scale); err != nil {
+		return n, fmt.Errorf("invalid precision %d and scale %d for decimal: %w",
+			dec.Precision, dec.Scale, err)
+	}
+
 	return n, nil
 }
 
